@@ -353,7 +353,7 @@ theorem replaceStep_direct_replace_applies (S : Schema) (hdet : DetS S) (hleaf :
               rcases run_target _ _ _ _ hrun with h1 | h1
               · rw [h1]; exact hqtop
               · exact .inr h1
-            obtain ⟨ffsB, fills, tail, b, _, _, _, hnorm, Y, hY⟩ := close_core S hdet hleaf hfl hcl hts hjc hro hf ht hv hn
+            obtain ⟨ffsB, fills, tail, b, _, _, _, _, hnorm, Y, hY⟩ := close_core S hdet hleaf hfl hcl hts hjc hro hf ht hv hn
               hattrs hpf hpt hft _ q' X (frontierOf_set S rf qD0 q' fr hF) hqtop' c.1 c.2 hc X (fappend L X) hXn
               (by rw [fappend_toks, htkL]) (fappend_norm _ _ hnL hXn) (fappend_checkKids S _ _ hkL hXk) hbLok
               (fun Xn T hXn' hfT hT => by
